@@ -27,6 +27,7 @@ import (
 	"github.com/nspcc-dev/neo-go/pkg/neotest"
 	"github.com/nspcc-dev/neo-go/pkg/neotest/chain"
 	"github.com/nspcc-dev/neo-go/pkg/smartcontract"
+	"github.com/nspcc-dev/neo-go/pkg/smartcontract/callflag"
 	"github.com/nspcc-dev/neo-go/pkg/smartcontract/trigger"
 	"github.com/nspcc-dev/neo-go/pkg/util"
 	"github.com/nspcc-dev/neo-go/pkg/vm/emit"
@@ -133,11 +134,11 @@ type Deployed struct {
 
 // Weights of operation kinds (see Producer.Step).
 type Weights struct {
-	GasTransfer, NeoTransfer, Vote, Candidate, Policy, Block, Role, Deploy, Run, Update, Destroy, Notary, Fault, Payment, NotaryAssisted, Oracle int
+	GasTransfer, NeoTransfer, Vote, Candidate, Policy, Block, Role, Deploy, Run, Update, Destroy, Notary, Fault, Payment, NotaryAssisted, Oracle, Ledger int
 }
 
 // DefaultWeights is a balanced mix.
-var DefaultWeights = Weights{GasTransfer: 10, NeoTransfer: 8, Vote: 10, Candidate: 4, Policy: 5, Block: 3, Role: 2, Deploy: 3, Run: 14, Update: 2, Destroy: 1, Notary: 4, Fault: 5, Payment: 5, NotaryAssisted: 3, Oracle: 4}
+var DefaultWeights = Weights{GasTransfer: 10, NeoTransfer: 8, Vote: 10, Candidate: 4, Policy: 5, Block: 3, Role: 2, Deploy: 3, Run: 14, Update: 2, Destroy: 1, Notary: 4, Fault: 5, Payment: 5, NotaryAssisted: 3, Oracle: 4, Ledger: 3}
 
 // ProducerConfig configures a history producer.
 type ProducerConfig struct {
@@ -435,7 +436,7 @@ func (p *Producer) GenTxs() []*transaction.Transaction {
 	r := p.R
 	p.spent = map[int]int64{}
 	w := p.Cfg.W
-	ws := []int{w.GasTransfer, w.NeoTransfer, w.Vote, w.Candidate, w.Policy, w.Block, w.Role, w.Deploy, w.Run, w.Update, w.Destroy, w.Notary, w.Fault, w.Payment, w.NotaryAssisted, w.Oracle}
+	ws := []int{w.GasTransfer, w.NeoTransfer, w.Vote, w.Candidate, w.Policy, w.Block, w.Role, w.Deploy, w.Run, w.Update, w.Destroy, w.Notary, w.Fault, w.Payment, w.NotaryAssisted, w.Oracle, w.Ledger}
 	n := r.Intn(p.Cfg.MaxTx + 1)
 	var txs []*transaction.Transaction
 	policyUsed := false
@@ -483,6 +484,8 @@ func (p *Producer) GenTxs() []*transaction.Transaction {
 			tx = p.opNotaryAssisted()
 		case 15:
 			tx = p.opOracle()
+		case 16:
+			tx = p.opLedger()
 		}
 		if tx != nil {
 			txs = append(txs, tx)
@@ -495,6 +498,62 @@ func (p *Producer) GenTxs() []*transaction.Transaction {
 		}
 	}
 	return txs
+}
+
+// opLedger queries the native Ledger for blocks and transactions at the edge
+// of the traceable window (and outside it on both sides); the answers stay on
+// the stack, so they are part of the execution result every replica must
+// reproduce whatever it has pruned.
+func (p *Producer) opLedger() *transaction.Transaction {
+	u := p.freeUser()
+	if u == nil {
+		return nil
+	}
+	h := int64(p.BC.BlockHeight()) + 1 // index of the block this transaction goes into
+	mtb := int64(p.BC.GetMaxTraceableBlocks())
+	cands := []int64{h - mtb - 1, h - mtb, h - mtb + 1, h - mtb + 2, h - 1, h, h + 1, 0, 1, h / 2}
+	w := io.NewBufBinWriter()
+	n := 2 + p.R.Intn(4)
+	// getTransactionVMState answers from stored execution results, which nodes
+	// bootstrapped by state synchronisation do not have for older blocks: it
+	// gets transactions of its own kind (see C20's known finding)
+	vmstateOnly := p.R.Intn(4) == 0
+	kind := "ledger-query"
+	if vmstateOnly {
+		kind = "ledger-query-vmstate"
+	}
+	for i := 0; i < n; i++ {
+		idx := cands[p.R.Intn(len(cands))]
+		if idx < 0 {
+			idx = 0
+		}
+		sel := p.R.Intn(6)
+		if vmstateOnly {
+			sel = 5
+		}
+		switch sel {
+		case 0:
+			emit.AppCall(w.BinWriter, nativehashes.LedgerContract, "getBlock", callflag.ReadStates, idx)
+		case 1:
+			emit.AppCall(w.BinWriter, nativehashes.LedgerContract, "getTransactionFromBlock", callflag.ReadStates, idx, int64(p.R.Intn(2)))
+		default:
+			// a transaction of that block, if it has one
+			var th util.Uint256
+			if idx >= 1 && int(idx) <= len(p.Blocks) && len(p.Blocks[idx-1].Transactions) > 0 {
+				txs := p.Blocks[idx-1].Transactions
+				th = txs[p.R.Intn(len(txs))].Hash()
+			} else {
+				th = util.Uint256{byte(idx), 0xab}
+			}
+			m := []string{"getTransactionHeight", "getTransaction", "getTransactionSigners"}[p.R.Intn(3)]
+			if vmstateOnly {
+				m = "getTransactionVMState"
+			}
+			emit.AppCall(w.BinWriter, nativehashes.LedgerContract, m, callflag.ReadStates, th)
+		}
+	}
+	emit.AppCall(w.BinWriter, nativehashes.LedgerContract, "currentIndex", callflag.ReadStates)
+	return p.Tx(kind, []neotest.Signer{u.S}, w.Bytes(), -1)
 }
 
 // Step generates and adds one block.
